@@ -417,6 +417,10 @@ int main(int argc, char** argv) {
         texts.push_back(prefix + tl + probe);
       }
     }
+    // witness texts of constructs whose step the counterexample prefix cannot set up: an empty line comment, comments back to back,
+    // integer literals in the upper half of the 64-bit range and negative ones
+    for (const char* w : {"//\n01 02 ?03?\n// t\n04", "// a\n//\n05", "/**/06//\n07", "####18446744073709551615 ####9223372036854775808", "####-1 ##-2 #-3", "####0xFFFFFFFFFFFFFFFE"})
+      texts.push_back(w);
     for (const string& text : texts) {
       string m_real, m_ref, d_real;
       try {
